@@ -804,6 +804,7 @@ def run_c12(tier, budget, rnd) -> StreamResult:
 
     # ------------------------------------------------------------------ (A0) stream identity at scale
     env_stream_oracle(res, rnd, quick, budget)
+    interpreter_start_oracle(res, rnd)
 
     # ------------------------------------------------------------------ (A) the real ModelInstance
     # seed-respecting generators only; continuous ones feed the independence oracle.  (`graph` and the
@@ -1215,14 +1216,66 @@ def env_stream_oracle(res, rnd, quick, budget) -> None:
     res.nontrivial.add(("env-streams", len(ids)))
 
 
+HASHSEED_PROBE = r"""
+import hashlib, json, sys
+from incomplete_cooperative.run.model import ModelInstance
+out = {}
+for gen in ("noisy_factory", "xos"):
+    inst = ModelInstance(number_of_players=3, game_generator=gen, seed=int(sys.argv[1]))
+    h = hashlib.sha256()
+    for _ in range(3):
+        env = inst.get_env()
+        for _ in range(2):
+            env.reset()
+            h.update(env.full_game.get_values().tobytes())
+    out[gen] = h.hexdigest()
+print("PROBE " + json.dumps(out))
+"""
+
+
+def interpreter_start_oracle(res, rnd) -> None:
+    """'For a fixed seed the result is the same' also across interpreter start-ups (a run with 1 process today and one with 4
+    tomorrow): the hidden games of ModelInstance(seed) must not depend on anything that differs between two interpreters —
+    string-hash salt (PYTHONHASHSEED), start time, process id.  Two fresh interpreters, different salts, same seed."""
+    import subprocess
+    import sys
+    from concurrent.futures import ThreadPoolExecutor
+    from common import REPO
+    seed = rnd.randrange(1, 10 ** 6)
+
+    def one(salt):
+        env = dict(os.environ, PYTHONPATH=str(REPO), PYTHONHASHSEED=str(salt), PYTHONDONTWRITEBYTECODE="1")
+        p = subprocess.run([sys.executable, "-c", HASHSEED_PROBE, str(seed)], capture_output=True, text=True, env=env, timeout=600)
+        for line in p.stdout.splitlines():
+            if line.startswith("PROBE "):
+                return json.loads(line[6:])
+        return {"crashed": (p.stderr or p.stdout)[-300:]}
+    with ThreadPoolExecutor(max_workers=2) as ex:
+        a, b = list(ex.map(one, (1, 4242)))
+    res.evaluations += 1
+    res.count("interpreter-start-probe")
+    if "crashed" in a or "crashed" in b:
+        res.notes.append(f"interpreter-start probe could not run: {a.get('crashed') or b.get('crashed')}")
+        return
+    if a != b:
+        res.violation("the hidden games of ModelInstance(seed) differ between two interpreter start-ups with the same seed "
+                      "(PYTHONHASHSEED 1 vs 4242): a fixed seed does not fix the result",
+                      {"source": "ModelInstance.interpreter_start", "seed": seed, "digests": [a, b]}, key="evaluate:interpreter-start")
+    else:
+        res.nontrivial.add(("interpreter-start", seed))
+
+
 def replay_env_streams(inp: dict):
     i, j = inp["environments"]
     ids, envs = _env_streams(inp["seed"], max(i, j) + 1, real=(i, j))
     if ids is None or i not in envs or j not in envs:
         return False, "could not rebuild the two environments"
     games = []
+    import pickle
     for k in (i, j):
-        e = envs[k]
+        # evaluate() builds ALL environments first and then pickles them into the workers chunk by chunk: what a repetition is
+        # evaluated on is what the pickled copy of its environment draws
+        e = pickle.loads(pickle.dumps(envs[k]))
         row = []
         for _ in range(3):
             e.reset()
